@@ -80,6 +80,8 @@ Unit(
         "self.parser.pos_to_linecol": Ext(
             "pos_to_linecol", returns="tuple", raises=None, pure=True,
             ensures=["result == linecol(callee, a0)"]),
+        # any other run-time callable invoked by the body can only be a scope provider
+        "*": PROVIDER,
     },
     ensures=[
         # ---- C32: which provider is applied
@@ -147,6 +149,13 @@ Unit(
         ],
     },
     canary="n_calls('provider') == 1",
+    ghost={"model_exprs": {
+        "has_k1": f"{K1} in {SP}", "has_k2": f"{K2} in {SP}", "has_k3": f"{K3} in {SP}", "has_k4": f"{K4} in {SP}",
+        "truthy_k1": f"truthy({SP}[{K1}])", "truthy_k2": f"truthy({SP}[{K2}])",
+        "truthy_k3": f"truthy({SP}[{K3}])", "truthy_k4": f"truthy({SP}[{K4}])",
+        "grammar_rrel": "crossref.scope_provider is not None",
+        "tools_support": "metamodel.textx_tools_support",
+    }},
 )
 
 
@@ -218,3 +227,46 @@ def _expand_unit(u):
 
 
 _expand_unit(_REG["model.resolve_one_step.body"])
+
+
+# --------------------------------------------------------------------------
+# native replay: an end-to-end load with one recording provider per registered key
+# --------------------------------------------------------------------------
+from txvc.props import replay_for  # noqa: E402
+
+
+@replay_for("model.resolve_one_step.body")
+def _replay_body(model, rec):
+    from textx import metamodel_from_str
+
+    keys = ["Ref.r", "*.r", "Ref.*", "*.*"]
+    present = [bool(model.get(f"has_k{i + 1}")) is True and model.get(f"has_k{i + 1}") is True for i in range(4)]
+    truthy = [model.get(f"truthy_k{i + 1}") is not False for i in range(4)]
+    grammar = model.get("grammar_rrel") is True
+    called = []
+
+    class Provider:
+        def __init__(self, key, truth):
+            self.key, self.truth = key, truth
+
+        def __bool__(self):
+            return self.truth
+
+        def __call__(self, obj, attr, obj_ref):
+            called.append(self.key)
+            from textx import get_children_of_type, get_model
+
+            for it in get_children_of_type("Item", get_model(obj)):
+                if it.name == obj_ref.obj_name:
+                    return it
+            return None
+
+    ref = "r=[Item:ID|items]" if grammar else "r=[Item]"
+    mm = metamodel_from_str(f"Model: items+=Item refs+=Ref; Item: 'item' name=ID; Ref: 'ref' {ref};")
+    mm.register_scope_providers({k: Provider(k, t) for k, p, t in zip(keys, present, truthy) if p})
+    mm.model_from_str("item a item b ref b")
+    expected = [] if grammar else [k for k, p in zip(keys, present) if p][:1]
+    ok = called == expected
+    return (not ok), (f"registered {[k for k, p in zip(keys, present) if p]} "
+                      f"(falsy provider objects: {[k for k, p, t in zip(keys, present, truthy) if p and not t]}), "
+                      f"grammar RREL: {grammar}; provider(s) called: {called}, documented precedence demands {expected}")
